@@ -294,6 +294,15 @@ fn explain(p: usize, s: &str, a: &Result<Value, TemporalError>) -> Option<u32> {
             }
         }
     }
+    // more than four at once (byte-level fuzzing stacks the annotation-scanner deviations freely): every listed
+    // deviation that applies to this parser switched on together
+    let mut all = (1u32 << n) - 1;
+    if !matches!(p, P_CALENDAR | P_TZSTR) {
+        all &= !grammar::RX_LONG_FRACTION;
+    }
+    if agrees(p, s, all, a) {
+        return Some(all);
+    }
     None
 }
 
